@@ -56,13 +56,28 @@ def guardedLL (ll : LookupList) : Bool := ll.all Lookup.guarded
 /-- no contextual subtable anywhere in the lookup list -/
 def simpleLL (ll : LookupList) : Bool := ll.all Lookup.simple
 
+/-- a chained context format 3 has at least one input coverage (the reader rejects 0) -/
+def Subtable.chain3Ok : Subtable → Bool
+  | .chain3 _ input _ _ => !input.isEmpty
+  | _ => true
+
+/-- hypothesis of `C07_no_panic`: `guardedLL` and every chained context format 3 has a
+non-empty input sequence — both established by the reader -/
+def readerShapedLL (ll : LookupList) : Bool :=
+  guardedLL ll && ll.all fun lk => lk.subtables.all Subtable.chain3Ok
+
 /-- subtables that never change the length of the sequence (everything except the multiple
 and the ligature substitution) -/
 def Subtable.fixedLen : Subtable → Bool
   | .gsub21 _ _ | .gsub41 _ _ => false
   | _ => true
 
-def Lookup.fixedLen (lk : Lookup) : Bool := lk.subtables.all Subtable.fixedLen
+/-- subtables that never merge glyphs (everything except the ligature substitution) -/
+def Subtable.mergeFree : Subtable → Bool
+  | .gsub41 _ _ => false
+  | _ => true
+
+def Lookup.mergeFree (lk : Lookup) : Bool := lk.subtables.all Subtable.mergeFree
 
 /-- the nested actions a subtable can put on the stack -/
 def Subtable.actions : Subtable → List Action
@@ -71,21 +86,21 @@ def Subtable.actions : Subtable → List Action
   | .ctx3 _ acts | .chain3 _ _ _ acts => acts
   | _ => []
 
-/-- the lookup a nested action refers to is absent or length-preserving -/
+/-- the lookup a nested action refers to is absent or contains no ligature substitution -/
 def actOK (ll : LookupList) (act : Action) : Bool :=
   match ll[act.lookup]? with
   | none => true
-  | some lk => lk.fixedLen
+  | some lk => lk.mergeFree
 
-/-- every nested action of every contextual subtable runs a length-preserving lookup
-(which may itself be contextual) -/
-def nestedFixedLL (ll : LookupList) : Bool :=
+/-- no nested action of any contextual subtable runs a lookup with a ligature substitution
+(the nested lookup may be contextual itself, and may insert glyphs: GSUB 2.1) -/
+def nestedMergeFreeLL (ll : LookupList) : Bool :=
   ll.all fun lk => lk.subtables.all fun s => s.actions.all (actOK ll)
 
 /-- the class of cases covered by the no-panic theorems: guarded, and either no contextual
-subtable (`C07_no_panic_partial`) or only length-preserving nested lookups
-(`C07_no_panic_nested_fixed`) -/
+subtable (`C07_no_panic_partial`) or no ligature substitution as a nested action
+(`C07_no_panic_nested_mergefree`) -/
 def guardedCase (ll : LookupList) (_lookups : List Nat) : Bool :=
-  guardedLL ll && (simpleLL ll || nestedFixedLL ll)
+  guardedLL ll && (simpleLL ll || nestedMergeFreeLL ll)
 
 end SfntV.Shape
